@@ -291,8 +291,12 @@ func (ex *Exec) reify(p *Ptr) Term {
 			if _, ok := ft.Underlying().(*types.Array); ok {
 				return ex.embRef(ex.u.structOf(p.Obj), p.Path[0].Field, p.Ref)
 			}
-			// pointer to a field of a heap struct: injective reference
-			return ex.fieldRef(p.Obj, p.Path[0].Field, p.Ref)
+			// pointer to a field of a heap struct: injective reference; the
+			// symbolic address is remembered so that loads and stores through
+			// it go to the field's own component
+			t := ex.fieldRef(p.Obj, p.Path[0].Field, p.Ref)
+			ex.reified[t.S] = p
+			return t
 		}
 	}
 	unsupported("cannot reify interior pointer (path length %d)", len(p.Path))
@@ -329,6 +333,9 @@ func (ex *Exec) ptrOf(st *State, v ssa.Value) *Ptr {
 		pt, ok := v.Type().Underlying().(*types.Pointer)
 		if !ok {
 			unsupported("ptrOf non-pointer %s", v.Type())
+		}
+		if p, ok := ex.reified[y.S]; ok {
+			return p
 		}
 		return &Ptr{Ref: y, Obj: pt.Elem()}
 	}
